@@ -502,13 +502,29 @@ def main(outdir, report_path):
           "  " + nestproof(shn),
           "theorem allC_length : allC.length = %d := by decide +kernel" % len(good_names),
           ]
-    first = [it[0] for it in shards[0] if it[0] in set(good_names)]
-    if first:
+    # witness: a small non-trivial group (cheap for `decide +kernel` in non-vacuity examples)
+    gs = set(good_names)
+    cands = []
+    for j, sh in enumerate(shards):
+        for it in sh:
+            if it[0] in gs:
+                cands.append((abs(len(it[3]) - 8), it[1], j, it[0]))
+    cands.sort()
+    if cands:
+        _, _, j, nm = cands[0]
+        # allC = shard0 ++ (shard1 ++ (... ++ shardN))
+        inner = "(by unfold shard%d; simp)" % j
+        if j < NSHARDS - 1:
+            prf = "List.mem_append_left _ " + inner
+        else:
+            prf = inner
+        for _ in range(j):
+            prf = "List.mem_append_right _ (%s)" % prf
         I += ["/-- non-vacuity witness: a concrete member of `allC` -/",
-              "def witness : SG × Cert := (%s, %sc)" % (first[0], first[0]),
+              "def witness : SG × Cert := (%s, %sc)" % (nm, nm),
               "theorem witness_mem : witness ∈ allC := by",
               "  unfold allC witness",
-              "  exact List.mem_append_left _ (by unfold shard0; exact List.mem_cons_self)"]
+              "  exact " + prf]
     I.append("end DS.Gen")
     changed += write_if_changed(os.path.join(outdir, "Index.lean"), "\n".join(I) + "\n")
     report["changed_files"] = changed
